@@ -24,6 +24,7 @@ type crashIn struct {
 	N        int    `json:"n"`        // number of candidates / content size factor
 	Previous string `json:"previous"` // none | expired
 	Same     bool   `json:"same"`     // new entry has the same shape and length as the old one
+	SkipReader bool `json:"skipReader"` // raw flavour: do not judge what a later reader is served (the listed finding), only what the writing call returns
 }
 
 func withFileLimit(k int, f func()) {
@@ -110,6 +111,7 @@ func runCrash(raw json.RawMessage) interface{} {
 	defer os.Setenv("XDG_CACHE_HOME", oldEnv)
 
 	// length of the new entry: run once without limit
+	writerHandedPartial := -1 // raw flavour: the writing call itself returned incomplete bytes without an error (first such k)
 	probe := func(k int) (served []string, real bool, fileLen int64, writeErr string) {
 		dir, err := os.MkdirTemp("", "verif-crash")
 		must(err)
@@ -128,7 +130,13 @@ func runCrash(raw json.RawMessage) interface{} {
 				valuesOf(mk(oldVals, &f1))
 				backdate(dir, 1000)
 			}
-			if k < 0 {
+			if k == -2 {
+				// the computation itself is cut short (the process dies inside the callback, here: the callback panics):
+				// nothing may be left behind that a later reader takes for an entry
+				valuesOf(crashSite(carapace.ActionCallback(func(c carapace.Context) carapace.Action {
+					panic("killed inside the callback")
+				}), 100*time.Second, key.String("k")))
+			} else if k < 0 {
 				valuesOf(mk(newVals, &f2))
 			} else {
 				withFileLimit(k, func() { valuesOf(mk(newVals, &f2)) })
@@ -147,7 +155,11 @@ func runCrash(raw json.RawMessage) interface{} {
 			_, werr = rawSite(100*time.Second, func() ([]byte, error) { return rawContent(newVals), nil })
 		} else {
 			withFileLimit(k, func() {
-				_, werr = rawSite(100*time.Second, func() ([]byte, error) { return rawContent(newVals), nil })
+				var got []byte
+				got, werr = rawSite(100*time.Second, func() ([]byte, error) { return rawContent(newVals), nil })
+				if werr == nil && string(got) != string(rawContent(newVals)) && writerHandedPartial < 0 {
+					writerHandedPartial = k
+				}
 			})
 		}
 		if werr != nil {
@@ -178,6 +190,13 @@ func runCrash(raw json.RawMessage) interface{} {
 	}
 	bad := []map[string]interface{}{}
 	offsets := 0
+	if in.Flavour == "action" {
+		served, real, fileLen, werr := probe(-2)
+		offsets++
+		if !accept[fmt.Sprint(served)] || (!real && eqStrs(served, recVals)) || eqStrs(served, newVals) {
+			bad = append(bad, map[string]interface{}{"k": -2, "served": served, "real": real, "fileLen": fileLen, "writeErr": werr})
+		}
+	}
 	for k := 0; k <= int(docLen)+1; k++ {
 		served, real, fileLen, werr := probe(k)
 		offsets++
@@ -185,11 +204,11 @@ func runCrash(raw json.RawMessage) interface{} {
 		if in.Flavour == "action" && !real && eqStrs(served, recVals) {
 			ok = false
 		}
-		if !ok && len(bad) < 3 {
+		if !ok && len(bad) < 3 && !(in.SkipReader && in.Flavour == "raw") {
 			bad = append(bad, map[string]interface{}{"k": k, "served": served, "real": real, "fileLen": fileLen, "writeErr": werr})
 		}
 	}
-	return map[string]interface{}{"docLen": docLen, "offsets": offsets, "bad": bad}
+	return map[string]interface{}{"docLen": docLen, "offsets": offsets, "bad": bad, "writerHandedPartial": writerHandedPartial}
 }
 
 func genCrash(r *rng, tier string) interface{} {
